@@ -119,6 +119,9 @@ CALLS: Dict[str, Dict[str, FrozenSet[str]]] = {
 }
 for _ip in ("IPv4Address", "IPv6Address", "IPv4Network", "IPv6Network", "IPv4Interface", "IPv6Interface"):
     CALLS[f"ipaddress.{_ip}"] = {"ANY": E({VE, TE}), "str": E({VE}), "int": E({VE})}
+for _ip in ("IPv4Network", "IPv6Network", "IPv4Interface", "IPv6Interface"):
+    # the (address, prefix) tuple form indexes its argument: IPv4Network(()) raises IndexError (observed on 3.12)
+    CALLS[f"ipaddress.{_ip}"]["ANY"] = E({VE, TE, "IndexError"})
 # WindowsPath on POSIX (PosixPath on Windows) raises NotImplementedError for EVERY argument: a platform limitation,
 # not a reaction to an unacceptable datum, hence not part of the rows (stated in C04's assumptions).
 for _p in ("PurePath", "Path", "PurePosixPath", "PosixPath", "PureWindowsPath", "WindowsPath"):
